@@ -123,8 +123,12 @@ def _episode(c, cfg):
         ep = Episode(c, cfg)
         F1 = ep.F1
         ltd, exp = F1.last_trading_date, F1.expiry
-        # some grid point lies between the last trading date and the expiry
-        c.assume(s_or(*[s_and(t >= ltd, t < exp) for t in ep.T[:-1]]))
+        # some decision is taken at/after the last trading date and *executed* (decision time +
+        # latency) before the expiry
+        if isinstance(ep.L, (int, float)) and ep.L == 0:
+            c.assume(s_or(*[s_and(t >= ltd, t < exp) for t in ep.T[:-1]]))
+        else:
+            c.assume(s_or(*[s_and(t >= ltd, t < exp, (exp - t).total_seconds() > ep.L) for t in ep.T[:-1]]))
         env = ep.env
         env.reset()
         k = 0
@@ -200,8 +204,8 @@ ASSUMPTIONS = ["chains of the built-in classes over concrete 1-2 year spans (rea
                "(the solver picks the exact last-trading instants)",
                "roll: the old lead is held with a symbolic position of either sign, symbolic quotes with spread for old and "
                "new lead, symbolic target weight (non-zero) and threshold; NLV > 0; snap band excluded",
-               "episode: a grid point lies in [last trading date, expiry) and every step targets the chain with a non-zero "
-               "weight; concrete prices"]
+               "episode: some decision is taken in [last trading date, expiry) and executed (decision time + latency) "
+               "before the expiry; every step targets the chain with a non-zero weight; concrete prices"]
 BOUNDS = {"quick": "resolution for 5 classes x month offset 0/1; roll for ES/ZN/VX; one episode over the March 2030 ES roll "
                    "with 3 grid points",
           "thorough": "roll for NK/ZB too; episodes with 4 grid points, symbolic latency, delay 1"}
